@@ -63,10 +63,20 @@ def build_extractor():
 def tree_hash(repo=REPO):
     """SHA-256 over every source file that can influence the build (tracked or not)."""
     h = hashlib.sha256()
-    out = subprocess.check_output(
-        ["git", "-C", repo, "ls-files", "-co", "--exclude-standard", "--",
-         "*.rs", "*.proto", "*Cargo.toml", "Cargo.lock", "*build.rs", "rust-toolchain.toml"], text=True)
-    files = sorted(set(f for f in out.splitlines()
+    pats = (".rs", ".proto", "Cargo.toml", "Cargo.lock", "rust-toolchain.toml")
+    files = []
+    if os.path.isdir(os.path.join(repo, ".git")) or os.path.isfile(os.path.join(repo, ".git")):
+        out = subprocess.check_output(
+            ["git", "-C", repo, "ls-files", "-co", "--exclude-standard", "--",
+             "*.rs", "*.proto", "*Cargo.toml", "Cargo.lock", "*build.rs", "rust-toolchain.toml"], text=True)
+        files = out.splitlines()
+    else:
+        for root, dirs, fs in os.walk(repo):
+            dirs[:] = [d for d in dirs if d not in ("target", ".git")]
+            for f in fs:
+                if f.endswith(pats):
+                    files.append(os.path.relpath(os.path.join(root, f), repo))
+    files = sorted(set(f for f in files
                        if not f.startswith(("examples/", "benches/", "target/"))))
     for f in files:
         p = os.path.join(repo, f)
@@ -124,7 +134,7 @@ def ensure_facts(fs="full", repo=REPO, log=sys.stderr):
         if os.path.isdir(d):
             shutil.rmtree(d)
         os.makedirs(d)
-        target = os.path.join(CACHE, "target-" + fs) if repo == REPO else os.path.join(CACHE, "target-scratch-" + fs)
+        target = os.path.join(CACHE, "target-" + fs) if os.path.abspath(repo) == "/repo" else os.path.join(CACHE, "target-scratch-" + fs)
         os.makedirs(target, exist_ok=True)
         # cargo's freshness cache would skip the wrapper: drop the members' fingerprints
         for fp in glob.glob(os.path.join(target, "debug", ".fingerprint", "d-engine*")):
